@@ -81,7 +81,8 @@ ADDED3 = {
     'C18': 'create_instance_context: the context of a self.x definition is the method context refined to the innermost '
            'scope around the assignment (1-3 scopes between assignment and class body).',
     'C19': 'FolderIO.walk pruning: exactly the entries of removed folders are deleted from os.walk\'s list, others kept '
-           'in order (all subsets of <= 3 sub-folders; replayed on a real directory).',
+           'in order (all subsets of <= 3 sub-folders; replayed on a real directory); search_in_file_ios: exactly the '
+           'passing files in scan order until a limit.',
     'C20': 'Importer._sys_path_with_modifications: the memoised effective path is never mutated in place (ownership '
            'frame obligation); detected sys.path edits are appended for the lookup only.',
 }
